@@ -2,6 +2,7 @@ package asp
 
 import (
 	"fmt"
+	"math"
 	"os"
 	"path/filepath"
 	"strings"
@@ -164,7 +165,7 @@ func createTarget(s *scope, args []pyObject) *core.BuildTarget {
 				if int(i) <= 1 {
 					target.Test.Flakiness = 1
 				} else {
-					target.Test.Flakiness = uint8(i)
+					target.Test.Flakiness = uint8(min(int(i), math.MaxUint8)) // don't wrap around; 256 must not become 0 runs
 					target.AddLabel("flaky")
 				}
 			}
